@@ -6,7 +6,11 @@
 For every entry of TABLE the function definition is anchored by a regular expression, the k-th `if( … )` after the
 anchor is extracted (balanced parentheses), PARSED into a small expression AST (C++ precedence: `||`, `&&`,
 `== != < <= > >=`, `+ -`, `*`, unary `! -`, postfix `.m`, `(args)`, `[index]`) and emitted as a core-only Lean
-definition `def gen_<Entry> (params) : Bool`.  The operands a guard may mention (the ATOMS: `i`, `dimension`,
+definition `def gen_<Entry> (params) : Bool`.  A condition (or a part of it) that is a call of a file-local free function
+whose body is a single `return <expr>;`, or a `const <scalar> name = <expr>;` local declared before the test, is
+expanded ONE level (arguments substituted for the parameters; a scalar argument must have the parameter's type class).
+The generated text depends only on the source text of the guards (file, anchor, condition), never on line numbers.
+The operands a guard may mention (the ATOMS: `i`, `dimension`,
 `rhs.Size()`, `M.Rows()`, `entries[i].size()`, `Square()`, …) and their C++ types are fixed per entry in TABLE:
 `unsigned int`/`size_t` -> Nat (so `i < 0` is `false`, exactly as in the C++), `int` -> Int, `double` -> Rat (exact),
 `bool` -> Bool.  Anything else in the condition (an operand not listed, an unknown operator, arithmetic on unsigned
@@ -141,7 +145,7 @@ def _strip_comments(s):
 
 
 def extract_condition(text, e):
-    """(condition text, line number) of entry e in the (comment-stripped) source text"""
+    """(condition text, text of the function body before the test) of entry e in the (comment-stripped) source text"""
     m = re.search(e["anchor"], text, re.M)
     if not m:
         raise ParseError("anchor not found")
@@ -162,7 +166,7 @@ def extract_condition(text, e):
                 break
         if cut is None:
             raise ParseError("Check_For_Error without arguments")
-        return args[:cut].strip(), text.count("\n", 0, c.start()) + 1
+        return args[:cut].strip(), text[m.end():c.start()]
     pos, k = m.end(), e["k"]
     while True:
         c = re.compile(r"\bif\s*\(").search(text, pos, end)
@@ -170,9 +174,76 @@ def extract_condition(text, e):
             raise ParseError("fewer than %d if-statements after the anchor" % (e["k"] + 1))
         j = _balanced(text, c.end())
         if k == 0:
-            return re.sub(r"\s+", " ", text[c.end():j - 1]).strip(), text.count("\n", 0, c.start()) + 1
+            return re.sub(r"\s+", " ", text[c.end():j - 1]).strip(), text[m.end():c.start()]
         k -= 1
         pos = j
+
+
+SCALAR = r"(?:const\s+)?(?:unsigned\s+int|unsigned\s+long|unsigned|size_t|std::size_t|int|long|double|float|bool)"
+
+
+def ctype(t):
+    """C++ scalar type -> Lean type (None: an object such as `const Matrix&`, substituted textually)"""
+    t = re.sub(r"\b(const|inline|static|constexpr)\b|&", " ", t).strip()
+    t = re.sub(r"\s+", " ", t)
+    if t in ("unsigned int", "unsigned", "unsigned long", "size_t", "std::size_t"):
+        return N
+    if t in ("int", "long"):
+        return I
+    if t in ("double", "float"):
+        return Q
+    if t == "bool":
+        return B
+    return None
+
+
+HELPER = re.compile(r"(?:^|\n)[ \t]*((?:(?:static|inline|constexpr)\s+)*" + SCALAR + r")\s+([A-Za-z_]\w*)\s*\(([^()]*)\)\s*\{\s*return\s+([^;{}]+);\s*\}")
+
+
+def find_helpers(text):
+    """file-local free functions whose body is a single `return <expr>;`:  name -> (return type, [(param, type)], expr text)"""
+    out = {}
+    for m in HELPER.finditer(text):
+        params = []
+        ok = True
+        for prm in [q.strip() for q in m.group(3).split(",") if q.strip()]:
+            mm = re.match(r"(.*?)([A-Za-z_]\w*)$", prm)
+            if not mm or not mm.group(1).strip():
+                ok = False
+                break
+            params.append((mm.group(2), ctype(mm.group(1))))
+        if ok:
+            out[m.group(2)] = (ctype(m.group(1)), params, m.group(4).strip())
+    return out
+
+
+LOCAL = re.compile(r"\bconst\s+(unsigned\s+int|unsigned|size_t|std::size_t|int|double|bool)\s+([A-Za-z_]\w*)\s*=\s*([^;{}]+);")
+
+
+def find_locals(before):
+    """`const <scalar> name = <expr>;` declarations of the function body that precede the test:  name -> (type, expr text)"""
+    return {m.group(2): (ctype(m.group(1)), m.group(3).strip()) for m in LOCAL.finditer(before)}
+
+
+def subst(e, mp):
+    k = e[0]
+    if k == "id":
+        return mp.get(e[1], e)
+    if k == "num":
+        return e
+    if k == "mem":
+        return ("mem", subst(e[1], mp), e[2])
+    if k == "call":
+        return ("call", e[1] if e[1][0] == "id" else subst(e[1], mp), tuple(subst(a, mp) for a in e[2]))
+    if k == "idx":
+        return ("idx", subst(e[1], mp), subst(e[2], mp))
+    if k in ("cmp", "bin"):
+        return (k, e[1], subst(e[2], mp), subst(e[3], mp))
+    if k in ("or", "and"):
+        return (k, subst(e[1], mp), subst(e[2], mp))
+    if k in ("not", "neg", "paren"):
+        return (k, subst(e[1], mp))
+    raise ParseError("unsupported expression in a helper")
 
 
 # ------------------------------------------------------------------------------------------------------------------
@@ -322,6 +393,35 @@ def lit(txt, ty):
     raise ParseError("literal %s where a %s is expected" % (txt, ty))
 
 
+class Env(dict):
+    """atoms + the file's single-return helpers + the const locals preceding the test; each may be inlined ONE level"""
+    def __init__(self, atoms, helpers=None, locals_=None, in_helper=False, in_local=False):
+        dict.__init__(self, atoms)
+        self.helpers, self.locals, self.in_helper, self.in_local = helpers or {}, locals_ or {}, in_helper, in_local
+
+
+def inline(e, atoms):
+    """the expression a helper call / a const local stands for (one level), or None"""
+    if not isinstance(atoms, Env):
+        return None
+    if e[0] == "call" and e[1][0] == "id" and e[1][1] in atoms.helpers and not atoms.in_helper:
+        rt, params, body = atoms.helpers[e[1][1]]
+        if len(params) != len(e[2]):
+            raise ParseError("helper `%s` called with %d arguments" % (e[1][1], len(e[2])))
+        for (pn, pt), a in zip(params, e[2]):
+            at = _type_of(a, atoms)
+            if pt is not None and at is not None and at != pt:
+                raise ParseError("helper `%s`: argument `%s` (%s) converted to a %s parameter" % (e[1][1], flat(a), at, pt))
+            if pt is None and a[0] != "id":
+                raise ParseError("helper `%s`: object argument `%s` is not a plain name" % (e[1][1], flat(a)))
+        inner = subst(Parser(tokenize(body)).parse(), {pn: (a if a[0] == "id" else ("paren", a)) for (pn, _), a in zip(params, e[2])})
+        return ("paren", inner), rt, Env(atoms, atoms.helpers, {}, True, True)
+    if e[0] == "id" and e[1] in atoms.locals and not atoms.in_local:
+        lt, body = atoms.locals[e[1]]
+        return ("paren", Parser(tokenize(body)).parse()), lt, Env(atoms, atoms.helpers, {}, atoms.in_helper, True)
+    return None
+
+
 def emit(e, atoms, want=None):
     """returns (lean text, type); `want` is the type a literal should take"""
     k = e[0]
@@ -332,6 +432,13 @@ def emit(e, atoms, want=None):
         key = flat(e)
         if key in atoms:
             return atoms[key]
+        inl = inline(e, atoms)
+        if inl:
+            ex, ty, env2 = inl
+            s_, t_ = emit(ex, env2, ty)
+            if ty is not None and t_ != ty:
+                raise ParseError("`%s` is declared %s but its expression is %s" % (flat(e), ty, t_))
+            return s_, t_
         if k == "call" and flat(e[1]) in ("fabs", "std::fabs", "std::abs") and len(e[2]) == 1:
             s, t = emit(e[2][0], atoms, Q)
             if t != Q:
@@ -400,9 +507,36 @@ def _type_of(e, atoms):
         key = flat(e)
         if key in atoms:
             return atoms[key][1]
+        if isinstance(atoms, Env):
+            if k == "call" and e[1][0] == "id" and e[1][1] in atoms.helpers:
+                return atoms.helpers[e[1][1]][0]
+            if k == "id" and e[1] in atoms.locals:
+                return atoms.locals[e[1]][0]
         if k == "call":
             return Q
     return None
+
+
+def inlined_note(e, env):
+    """text of the helpers / const locals the condition was expanded through (for the generated comment)"""
+    notes = []
+
+    def walk(x):
+        if not isinstance(x, tuple) or not x:
+            return
+        if isinstance(x[0], tuple):
+            for z in x:
+                walk(z)
+            return
+        if x[0] == "call" and x[1][0] == "id" and x[1][1] in env.helpers and flat(x) not in env:
+            rt, ps, body = env.helpers[x[1][1]]
+            notes.append("%s(%s) { return %s; }" % (x[1][1], ", ".join(p for p, _ in ps), body))
+        if x[0] == "id" and x[1] in env.locals and x[1] not in env:
+            notes.append("const %s = %s" % (x[1], env.locals[x[1]][1]))
+        for y in x[1:]:
+            walk(y)
+    walk(e)
+    return sorted(set(notes))
 
 
 CTYPE = {N: "unsigned int / size_t -> Nat (a comparison `… < 0` is false, as in the C++)", I: "int -> Int", Q: "double -> Rat (exact)", B: "bool -> Bool"}
@@ -410,7 +544,7 @@ CTYPE = {N: "unsigned int / size_t -> Nat (a comparison `… < 0` is false, as i
 
 def translate(repo):
     """returns (list of (entry, cond text, file, line, lean body | None, error | None), constants list)"""
-    cache, out = {}, []
+    cache, out, helpers = {}, [], {}
 
     def src(f):
         if f not in cache:
@@ -420,8 +554,13 @@ def translate(repo):
     for e in TABLE:
         cond, line, body, err = None, None, None, None
         try:
-            cond, line = extract_condition(src(e["file"]), e)
-            s, t = emit(Parser(tokenize(cond)).parse(), e["atoms"])
+            cond, before = extract_condition(src(e["file"]), e)
+            if e["file"] not in helpers:
+                helpers[e["file"]] = find_helpers(src(e["file"]))
+            env = Env(e["atoms"], helpers[e["file"]], find_locals(before))
+            ast = Parser(tokenize(cond)).parse()
+            s, t = emit(ast, env)
+            line = inlined_note(ast, env)
             if t != B:
                 raise ParseError("the condition is not boolean")
             body = s
@@ -459,6 +598,11 @@ open Lp
 """
 
 
+def anchor_text(rx):
+    """readable form of an anchoring regular expression (for comments only)"""
+    return re.sub(r"\\(.)", r"\1", rx.lstrip("^"))
+
+
 def previous_defs(path):
     """name -> full text block (comment + def) of the existing generated file (used when an entry cannot be parsed)"""
     if not os.path.exists(path):
@@ -487,8 +631,8 @@ def render(entries, consts, prev):
                 parts.append(re.sub(r"\s*\Z", "\n\n", prev[nm]))
             continue
         used = sorted({t for _, t in e["params"]})
-        parts.append("/-- %s:%d  `%s`\n    %s -/\ndef %s %s : Bool :=\n  %s\n\n" % (
-            f, line, cond, "; ".join(CTYPE[t] for t in used), nm,
+        parts.append("/-- %s, anchor `%s`:  `%s`%s\n    %s -/\ndef %s %s : Bool :=\n  %s\n\n" % (
+            f, anchor_text(e["anchor"]), cond, "".join("\n    with  %s" % n for n in (line or [])), "; ".join(CTYPE[t] for t in used), nm,
             " ".join("(%s : %s)" % p for p in e["params"]), body))
     parts.append("end Lp.C10.Gen\n")
     return "".join(parts), problems
